@@ -335,31 +335,31 @@ type Tok struct {
 
 // Trace is what the runner observed for one job.
 type Trace struct {
-	ID      int       `json:"id"`
-	OK      bool      `json:"ok"`
-	ErrKind string    `json:"ek,omitempty"` // syntax | ctx | other
-	Err     string    `json:"err,omitempty"`
-	Line    int       `json:"line,omitempty"`
-	S       int       `json:"s"`
-	E       int       `json:"e"`
-	Events  []Event   `json:"ev,omitempty"`
-	EH      []ErrCall `json:"eh,omitempty"`
-	Log     []string  `json:"log,omitempty"`
-	Val     string    `json:"val,omitempty"`
-	Panic   string    `json:"panic,omitempty"`
-	Polls   int       `json:"polls,omitempty"`
-	Toks    []Tok     `json:"toks,omitempty"`
-	NextCalls int     `json:"nc,omitempty"`
-	Overflow  bool    `json:"ovf,omitempty"`
+	ID        int       `json:"id"`
+	OK        bool      `json:"ok"`
+	ErrKind   string    `json:"ek,omitempty"` // syntax | ctx | other
+	Err       string    `json:"err,omitempty"`
+	Line      int       `json:"line,omitempty"`
+	S         int       `json:"s"`
+	E         int       `json:"e"`
+	Events    []Event   `json:"ev,omitempty"`
+	EH        []ErrCall `json:"eh,omitempty"`
+	Log       []string  `json:"log,omitempty"`
+	Val       string    `json:"val,omitempty"`
+	Panic     string    `json:"panic,omitempty"`
+	Polls     int       `json:"polls,omitempty"`
+	Toks      []Tok     `json:"toks,omitempty"`
+	NextCalls int       `json:"nc,omitempty"`
+	Overflow  bool      `json:"ovf,omitempty"`
 }
 
 // RunResult holds traces by job id plus crash attribution.
 type RunResult struct {
-	Traces  map[int]*Trace
-	Crashed []int  // job ids that were running when a runner process died
-	Stderr  string // stderr of crashed runs (concatenated, truncated)
+	Traces      map[int]*Trace
+	Crashed     []int  // job ids that were running when a runner process died
+	Stderr      string // stderr of crashed runs (concatenated, truncated)
 	CPUExceeded []int
-	Output string // stdout+stderr of the runner processes (truncated)
+	Output      string // stdout+stderr of the runner processes (truncated)
 }
 
 // Run executes jobs with the runner binary; restarts after crashes. cpuSec is
